@@ -288,9 +288,91 @@ def confirm(prop, fail, binaries, strict=False, extra_env=None, runs=3, need=2):
         if hits >= need:
             break
     if hits >= need:
+        if fail.get("kind") == "crash" and os.environ.get("VERIF_NO_MINIMISE") != "1":
+            try:
+                minimise(prop, p, binaries[fail["cfg"]], strict, extra_env)
+            except Exception as e:
+                log("minimisation skipped: %s" % str(e)[-200:])
         return p, last
     os.remove(p)
     return None, last
+
+
+DIM_KEYS = ("m", "n", "l", "w", "x2", "ma", "mb", "na", "nb", "a", "b", "c", "T", "steps")
+
+
+def minimise(prop, path, binary, strict=False, extra_env=None, budget_s=90):
+    """Out-of-process minimisation of a failing recipe (used for crashes and hangs, which bypass rapidcheck's in-process
+    shrinking): drop window placements, simplify patterns, shrink dimensions - keeping a candidate only while the replay
+    still fails in the same way.  Rewrites the replay file in place; bounded by budget_s."""
+    t0 = time.time()
+    lines = [l for l in open(path).read().splitlines()]
+    head = [l for l in lines if l.startswith("#")]
+    body = [l for l in lines if l and not l.startswith("#")]
+    if len(body) != 1:
+        return
+    case = body[0]
+    st0, _ = run_replay(binary, path, strict, timeout=120, extra_env=extra_env)
+    if st0 not in ("fail", "crash"):
+        return
+
+    def still_fails(cand):
+        tmp = path + ".min"
+        with open(tmp, "w") as f:
+            f.write("\n".join(head) + "\n" + cand + "\n")
+        st, _ = run_replay(binary, tmp, strict, timeout=60, extra_env=extra_env)
+        os.remove(tmp)
+        return st == st0
+
+    def toks(c):
+        return [t.split("=", 1) for t in c.split(" ")]
+
+    def join(kv):
+        return " ".join("%s=%s" % (k, v) for k, v in kv)
+
+    changed = True
+    while changed and time.time() - t0 < budget_s:
+        changed = False
+        kv = toks(case)
+        # 1. drop the window placement of one operand at a time
+        prefixes = sorted(set(k.rsplit(".", 1)[0] for k, v in kv if k.endswith(".view")))
+        for pfx in prefixes:
+            cand = join([(k, v) for k, v in kv if not (k.startswith(pfx + ".") and k.rsplit(".", 1)[1] in ("view", "top", "bot", "lw", "rw", "slack", "fill", "fseed"))])
+            if cand != case and still_fails(cand):
+                case, changed = cand, True
+                break
+        if changed or time.time() - t0 > budget_s:
+            continue
+        # 2. simpler patterns and seeds
+        for i, (k, v) in enumerate(kv):
+            if k.endswith(".pat") and v not in ("zero", "ident", "dense"):
+                for simple in ("zero", "ident", "dense"):
+                    cand = join(kv[:i] + [(k, simple)] + kv[i + 1:])
+                    if still_fails(cand):
+                        case, changed = cand, True
+                        break
+            if changed:
+                break
+            if (k.endswith("seed") or k.endswith(".jseed")) and v not in ("0x0", "0x1"):
+                cand = join(kv[:i] + [(k, "0x1")] + kv[i + 1:])
+                if still_fails(cand):
+                    case, changed = cand, True
+                    break
+        if changed or time.time() - t0 > budget_s:
+            continue
+        # 3. smaller dimensions (halve, then decrement)
+        for i, (k, v) in enumerate(kv):
+            if k in DIM_KEYS and v.lstrip("-").isdigit() and int(v) > 1:
+                for nv in (int(v) // 2, int(v) - 64, int(v) - 1):
+                    if nv >= 1 and nv < int(v):
+                        cand = join(kv[:i] + [(k, str(nv))] + kv[i + 1:])
+                        if still_fails(cand):
+                            case, changed = cand, True
+                            break
+            if changed:
+                break
+    with open(path, "w") as f:
+        f.write("\n".join(head) + "\n# (minimised out of process by bin/vcheck.py)\n" + case + "\n")
 
 
 def regression_tier(prop, binaries, default_cfg, strict=False, extra_env=None):
